@@ -30,7 +30,14 @@ def sites(body, fb):
                 continue
             ops = [roles.of_operand(o, bi) for o in t["ops"]]
             cond = org.of_operand(t["cond"], bi, "t")
-            out.append({"kind": "assert:" + kind, "key": "%s:%s" % (kind, ",".join(_short(o) for o in ops)), "where": t["span"]["at"], "ops": ops, "exp": t["span"]["exp"], "cond": cond, "block": bi})
+            oty = None
+            for o in t["ops"]:
+                if o["k"] in ("copy", "move") and not o["p"]["proj"]:
+                    oty = body.lty(o["p"]["l"])
+                elif o["k"] == "const":
+                    oty = oty or o.get("ty")
+            kops = sorted(ops) if kind in ("Overflow(Add)", "Overflow(Mul)") else ops
+            out.append({"kind": "assert:" + kind, "key": "%s:%s" % (kind, ",".join(_short(o) for o in kops)), "where": t["span"]["at"], "ops": ops, "exp": t["span"]["exp"], "cond": cond, "block": bi, "ty": oty})
         elif t["k"] == "call":
             f = t["f"]
             if "indirect" in f:
@@ -86,6 +93,8 @@ def auto_justify(site):
             cs = _consts_of(b)
             if cs is not None and all(0 <= c <= 10 for c in cs) and " Mul " not in a and "Shl" not in a:
                 return "increment of a usize counter by a constant <= 10: the counter is bounded by the length of the input text (counts < 2^31 by the property's quantifier)"
+    if k == "assert:Overflow(Add)" and site.get("ty") in ("usize", "u64", "u128", "isize", "i64", "i128") and not any(" Mul " in o or "Shl" in o and "K4" not in o for o in ops) and not site.get("numeric"):
+        return "sum of two 64-bit (or wider) lengths / counts / positions: each is far below 2^63 (counts < 2^31 by the property's quantifier, lengths bounded by memory)"
     if k in ("assert:Overflow(Shl)", "assert:Overflow(Shr)") and len(ops) == 2:
         cs = _consts_of(ops[1])
         if cs is not None and all(0 <= c < 32 for c in cs):
